@@ -4,6 +4,7 @@
 # on a virtual monotonic clock; the trace of (fn, virtual time, payloads on the
 # clock links) is checked against the deadline recurrence of the statement.
 
+import logging
 import math
 import threading
 
@@ -197,10 +198,11 @@ def pattern(r, T):
 	if k == 0:
 		return "zero", (lambda i: 0)
 	if k == 1:
-		c = r.choice((T // 2, int(0.99 * T), T - 1, T, T + 1, int(1.01 * T), 3 * T, int(2.5 * T)))
+		# (overruns of less than a microsecond included: an overrun is an overrun)
+		c = r.choice((T // 2, int(0.99 * T), T - 1, T, T + 1, T + 500, T + 999, T + 1000, int(1.01 * T), 3 * T, int(2.5 * T)))
 		return "const %d" % c, (lambda i, c = c: c)
 	if k == 2:
-		a, b = r.choice(((0, 2 * T), (T // 2, int(1.5 * T)), (T, T + 1), (0, T)))
+		a, b = r.choice(((0, 2 * T), (T // 2, int(1.5 * T)), (T, T + 1), (0, T), (0, T + 300), (T + 700, T // 3)))
 		return "alternating %d/%d" % (a, b), (lambda i, a = a, b = b: a if i % 2 == 0 else b)
 	if k == 3:
 		at = r.randrange(1, 200)
@@ -255,6 +257,12 @@ def run(ctx):
 			"latency": ["none", "random 0..200us", "150us on 1/7 of the wake-ups"][lmode]}
 		ctx.seen(common.h64(desc))
 		rn = Run(world, start_fn, period, nlinks, nticks, hdur, lat, origin)
+		# the application's default log level is DEBUG: the generator's debug statements are then executed on every tick
+		debug_log = r.random() < 0.4
+		logging.getLogger().setLevel(logging.DEBUG if debug_log else logging.WARNING)
+		desc["log_level"] = "DEBUG" if debug_log else "WARNING"
+		if debug_log:
+			ctx.count("runs_at_debug_log_level")
 		if nlinks and r.random() < 0.3:
 			for _ in range(r.randint(1, 6)):
 				rn.link_script[r.randrange(nticks)] = (r.choice(("add", "del")), r.randrange(nlinks))
@@ -294,7 +302,9 @@ def run(ctx):
 					ctx.violation("restart", desc, what = "after stop()/start() number %d: %s" % (cycle + 1, what))
 					break
 	sim.restore_time()
+	logging.getLogger().setLevel(logging.WARNING)
 	ctx.require("runs", 50)
+	ctx.require("runs_at_debug_log_level", 20)
 	ctx.require("ticks", 10000)
 	ctx.require("overruns", 100)
 	ctx.require("hyperframe_wraps", 5)
